@@ -854,7 +854,57 @@ func (t *c01tr) canon() string {
 	return b.String()
 }
 
+// every copy of a grouping's node has its own list of musts: a refine that adds a must to one copy does not show in
+// another, whatever the number of musts the grouping's node states (a slice with spare capacity is shared memory)
+func c01musts(c *core.Ctx) {
+	for k := 0; k <= 9; k++ {
+		var own []string
+		var gm strings.Builder
+		for i := 0; i < k; i++ {
+			own = append(own, fmt.Sprintf("../p%d", i))
+			fmt.Fprintf(&gm, " must \"../p%d\";", i)
+		}
+		for _, kind := range []string{"leaf", "container", "list", "leaf-list"} {
+			node := map[string]string{"leaf": "leaf n { type string;%s }", "container": "container n {%s leaf x { type string; } }", "list": "list n { key x;%s leaf x { type string; } }", "leaf-list": "leaf-list n { type string;%s }"}[kind]
+			y := fmt.Sprintf("module mu { namespace \"urn:mu\"; prefix mu; revision 2020-01-01;\n  grouping g { "+node+" }\n  container a { uses g { refine n { must \"../ra\"; } } }\n  container b { uses g { refine n { must \"../rb\"; } } }\n  container c { uses g; }\n  container d { uses g { refine n { must \"../rd1\"; must \"../rd2\"; } } }\n}", gm.String())
+			m, err := parser.LoadModuleFromString(nil, y)
+			c.Evaluations++
+			c.Count("musts_of_grouping_node", fmt.Sprint(k))
+			c.Distinct(fmt.Sprint("musts ", kind, k))
+			if err != nil {
+				c.Violation(core.Replay{Kind: "property-failure", Class: "musts-load", Summary: "module with refined musts does not load: " + err.Error(), Input: y})
+				continue
+			}
+			var bad []string
+			for cname, extra := range map[string][]string{"a": {"../ra"}, "b": {"../rb"}, "c": nil, "d": {"../rd1", "../rd2"}} {
+				d := meta.Find(m, cname+"/n")
+				hm, ok := d.(meta.HasMusts)
+				if !ok {
+					bad = append(bad, cname+"/n missing")
+					continue
+				}
+				var got []string
+				for _, mu := range hm.Musts() {
+					got = append(got, mu.Expression())
+					if mu.Parent() != meta.Meta(d) {
+						bad = append(bad, fmt.Sprintf("%s/n: must %q has another node as its parent", cname, mu.Expression()))
+					}
+				}
+				want := append(append([]string{}, own...), extra...)
+				if strings.Join(got, " ; ") != strings.Join(want, " ; ") {
+					bad = append(bad, fmt.Sprintf("%s/n has musts [%s], written [%s]", cname, strings.Join(got, " ; "), strings.Join(want, " ; ")))
+				}
+			}
+			sort.Strings(bad)
+			if len(bad) > 0 {
+				c.Violation(core.Replay{Kind: "property-failure", Class: "musts-of-copies", Summary: fmt.Sprintf("%s with %d musts in a grouping used four times: %s", kind, k, strings.Join(bad, "; ")), Input: y})
+			}
+		}
+	}
+}
+
 func C01(c *core.Ctx) {
+	c01musts(c)
 	c.Rule = "generated module sets: a main module whose body is built from leaves, containers, keyed lists and uses of groupings placed at module level, in the using container (sibling scope), in a submodule and in an imported module (prefixed uses), groupings nested in groupings, a grouping used several times with different refines (description, default, mandatory, config, min-elements incl. 0, max-elements) and uses-augments (into containers and lists of the copy), module-level augments into plain and into grouping-expanded containers in textual order, config false stated on some nodes; the compiled tree (kind, name, order, effective config, description, default, mandatory, min-/max-elements of every node) compared with the Lean expansion of the factored form, with the harness's own expansion, and with the compiled tree of the same schema written inline without any grouping, augment or second file; also: a leaf, container or list named like the grouping used next to it, a uses whose augment uses the same grouping again, a module grouping named like the imported grouping it wraps, presence stated and refined, leaves guarded by an enabled feature of the module (the load has imports). non-trivial = module set with ≥2 uses, ≥1 refine and ≥1 augment; distinct by module set"
 	c.Assumptions = append(c.Assumptions,
 		"every leaf is of type string (types are C02); if-feature, choice/case, deviations and rpc/notification content are not generated here (C11 covers feature guards, C09/C06 choices)",
@@ -917,6 +967,17 @@ func C01(c *core.Ctx) {
 			g.groups = append(g.groups, inner, wrap)
 			body = append(body, &fnode{kind: "cont", name: g.name("c"), kids: []*fnode{{kind: "uses", g: wrap}}}, &fnode{kind: "cont", name: g.name("c"), kids: []*fnode{{kind: "uses", g: wrap}}})
 			c.Count("scenario", "grouping named like the imported grouping it wraps")
+		}
+		// a container that holds nothing but an action and a notification whose bodies use a grouping
+		if r.Chance(30) {
+			gg := &fgroup{name: g.name("g"), where: core.Pick(r, []string{"module", "sub", "imp"}), uses: 3}
+			gg.yname = gg.name
+			gg.body = []*fnode{{kind: "leaf", name: g.name("f"), p: fprops{}}, {kind: "cont", name: g.name("c"), kids: []*fnode{{kind: "leaf", name: g.name("f"), p: fprops{}}}}}
+			g.groups = append(g.groups, gg)
+			act := &fnode{kind: "cont", name: g.name("act"), kids: []*fnode{{kind: "cont", name: "input", kids: []*fnode{{kind: "uses", g: gg}}}, {kind: "cont", name: "output", kids: []*fnode{{kind: "uses", g: gg}}}}}
+			ntf := &fnode{kind: "cont", name: g.name("ntf"), kids: []*fnode{{kind: "uses", g: gg}}}
+			body = append(body, &fnode{kind: "cont", name: g.name("c"), kids: []*fnode{act, ntf}})
+			c.Count("scenario", "container with operations only, their bodies use a grouping")
 		}
 		// a uses whose augment uses the same grouping again: written outside the grouping, not a recursion
 		if r.Chance(30) {
